@@ -104,19 +104,19 @@ theorem C07_new_room (cand : RoomNode) (room : RoomT) (h : prepareNewRoom cand =
     only if every entry is attached to its list by a placing reference signed by the entry's own
     author, with the list's label and the owner's entity — a reference binds (owner row, label,
     entry), so an entry cannot be moved to another list, group or room by a third party — and the
-    room row is the stored one or a newer `sys.Room` row signed by an admin. -/
+    room row that is written is the candidate's only when it equals the stored one or is a newer
+    `sys.Room` row signed by an admin, and the stored one otherwise. -/
 theorem C07_bound_to_place (s s' : RStore) (cand : RoomNode) (h : accept Defects.none s cand = .ok s') :
     cand.placingOk = true ∧
-    ∀ room old, s.rooms.find? (·.id = cand.node.id) = some room → readBack s cand.node.id = some old →
-      rowEq cand.node old.node = true ∨
-      (old.node.mdate < cand.node.mdate ∧ cand.node.ent = 100 ∧ room.isAdmin cand.node.author cand.node.mdate = true) := by
+    ∀ room old merged upd, s.rooms.find? (·.id = cand.node.id) = some room → readBack s cand.node.id = some old →
+      prepareWithHistory Defects.none room old cand = some (.ok (merged, upd)) →
+      (rowEq merged.node cand.node = true ∧
+        (rowEq cand.node old.node = true ∨
+         (old.node.mdate < cand.node.mdate ∧ cand.node.ent = 100 ∧ room.isAdmin cand.node.author cand.node.mdate = true))) ∨
+      (rowEq merged.node old.node = true ∧ ¬ old.node.mdate < cand.node.mdate) := by
   refine ⟨(accept_none_placing h).2.2, ?_⟩
-  intro room old hroom hold
-  rcases (accept_ok h).2.2 with ⟨room', old', hr, ho, merged, upd, hprep, _⟩ | ⟨hn, _⟩
-  · rw [hroom] at hr; rw [hold] at ho
-    cases hr; cases ho
-    exact (prepareWithHistory_sound hprep).roomRow rfl
-  · rw [hroom] at hn; cases hn
+  intro room old merged upd _ _ hprep
+  exact (prepareWithHistory_sound hprep).roomRow rfl
 
 /-- **C07_partial.** On every candidate that passes `candGuard` (placing references signed by the
     entries' authors with the right label and source entity; room row unchanged or newer and signed by
